@@ -109,3 +109,8 @@ add("C30", "exploration", "vh",
     "exhaustive differential exploration, RuntimeDialect vs ChiaDialect",
     "The standard table is reconstructed as every opcode->op_* assignment of ChiaDialect::op whose name f_table::opcode_by_name knows, quote 1, apply 2. Every in-scope program of seven spaces x 7|20 flag sets is run on both dialects under budgets 0, C, C-1; result, cost and error string must be equal (ChiaDialect gets the flags minus ENABLE_GC and DISABLE_OP).",
     "Scope filter is syntactic and conservative (any mention of 36, 48, 62-65 or a 4-byte secp opcode excludes the program). The 'standard table' is not shipped as a literal by the repository.")
+
+add("C03", "exploration", "vh",
+    "explicit enumeration of prior allocator histories and atom re-encodings (deviation-bounded) around the real run_program",
+    "For every program of seven spaces the outcome in a fresh allocator is compared with the run after every prior history of length <=2|3 over a 9-event alphabet (junk atoms/pairs, earlier succeeding and failing runs, runs that validate BLS points and then fail, an earlier run of the subject itself, checkpoint+restore, a failed allocation), with the all-heap / all-view / mixed re-encodings and every single-atom deviation, and with every scripted accumulator-choice sequence of the pre-hard-fork + / - slow path (hook H4).",
+    "Histories are sequences of public API calls on the same Allocator; runs that hit an allocator limit are excluded by the property's own statement. The accumulator script needs hook H4.")
